@@ -30,7 +30,7 @@ package flate
 //@ pure rdBasic(f *decompressor) bool = 0 <= f.readPos && f.readPos <= f.writePos && f.writePos <= 65797 && f.rBuf != nil && brOK(f.rBuf) && 0 <= f.peekSize && tabsOK(&f.state)
 //@ pure inputOK(f *decompressor) bool = (f.state.input != nil ==> remBits(&f.state) <= 8*f.peekSize + 7 && f.peekSize <= f.rBuf.buffered) && (f.state.input == nil ==> int(f.state.bitsLen/8) <= f.rBuf.buffered)
 //@ pure errClass(e error) bool = e == nil || e == io.EOF || e == io.ErrUnexpectedEOF || iscorrupt(e) || (e == peekErr && e != bufio.ErrBufferFull)
-//@ pure rdOK(f *decompressor) bool = rdBasic(f) && (f.err == nil ==> inflOK(&f.state) && inputOK(f))
+//@ pure rdOK(f *decompressor) bool = rdBasic(f) && (f.err == nil ==> inflOK(&f.state) && inputOK(f)) && (f.err == io.EOF ==> f.writePos == f.readPos)
 //@ pure rdFresh(f *decompressor) bool = rdOK(f) && f.readPos == 0 && f.writePos == 0 && f.err == nil && !f.eof && f.needInput && f.peekSize == 0 && inflFresh(&f.state)
 
 //@ func NewReader
@@ -138,8 +138,10 @@ package flate
 //@   ensures[C03 C15 sticky] old(f.err) != nil && old(f.writePos) == old(f.readPos) ==> n == 0 && err == old(f.err) && f.err == old(f.err) && extReads == old(extReads)
 //@   ensures[C03 C15 err-recorded] err != nil ==> f.err == err && f.writePos == f.readPos
 //@   ensures[C03 classify] errClass(err) || err == old(f.err)
+//@   ensures[C11 eof-alone] err == io.EOF ==> n == 0
 //@   loop 1 invariant rdBasic(f) && (f.err == nil ==> inflOK(&f.state) && inputOK(f)) && n == 0
 //@   loop 1 invariant f.err == nil || f.err == old(f.err) || (errClass(f.err) && f.writePos > f.readPos)
+//@   loop 1 invariant[C11 eof-alone] f.err == io.EOF ==> f.writePos == f.readPos
 //@   loop 1 invariant old(f.err) != nil && old(f.writePos) == old(f.readPos) ==> same(f.err) && same(f.writePos) && same(f.readPos) && extReads == old(extReads)
 //@   loop 1 invariant old(f.writePos) > old(f.readPos) ==> same(f.writePos) && same(f.readPos) && same(f.historyBuffer) && extReads == old(extReads) && same(f.err)
 
